@@ -4579,6 +4579,11 @@ class PyCdlib:
         if hasattr(self._cdfp, 'mode') and not self._cdfp.mode.startswith(('r+', 'w', 'a', 'rb+')):
             raise pycdlibexception.PyCdlibInvalidInput('To modify a file in place, the original ISO must have been opened in a write mode (r+, w, or a)')
 
+        if hasattr(self._cdfp, 'mode') and self._cdfp.mode.startswith('a'):
+            # In append mode every write lands at the end of the file no matter
+            # where we seek to, so nothing could be modified in place.
+            raise pycdlibexception.PyCdlibInvalidInput('To modify a file in place, the original ISO must not have been opened in append mode (use r+)')
+
         if self._layout_changed:
             # The in-memory layout no longer matches the layout of the file
             # that was opened, so the locations we would write to are wrong.
